@@ -57,6 +57,21 @@ pub fn gen(ctx: &mut Ctx) {
     let rules = dat_rules();
     ctx.line(&format!("psl.rules {}", rules.len()), "same");
 
+    // ---- focus: names the translator found the table and the .dat file to disagree on (search for a
+    // failing input when the kernel obligation no longer checks); empty on an unchanged tree
+    if let Ok(txt) = std::fs::read_to_string("/verif/work/psl_focus.txt") {
+        for line in txt.lines() {
+            let bytes: Vec<u8> = (0..line.len() / 2).filter_map(|i| u8::from_str_radix(&line[2 * i..2 * i + 2], 16).ok()).collect();
+            if let Ok(name) = String::from_utf8(bytes) {
+                if name.is_empty() { continue; }
+                for v in [name.clone(), format!("www.{}", name), format!("a.b.{}", name), name.split_once('.').map(|x| x.1.to_string()).unwrap_or_default()] {
+                    if !v.is_empty() { lookups(ctx, &v); }
+                }
+                ctx.stat("psl.focus");
+            }
+        }
+    }
+
     // ---- corpus: hand-picked shapes first
     for d in ["", ".", "..", "com", "co.uk", "www.ck", "x.www.ck", "a.ck", "ck", "a.b.ck", "city.kobe.jp", "x.city.kobe.jp",
               "a.kobe.jp", "b.a.kobe.jp", "kobe.jp", "jp", "example.com.", ".example.com", "a..com", "localhost",
